@@ -438,6 +438,8 @@ func genC13(rt *rapid.T) *c13Gen {
 			c.Rejected = []string{gast.RuleString(cp) + "\n" + tail}
 		}
 	}
+	// a third of the knowledge bases are stored and loaded before they are instantiated
+	c.ViaGRB = rapid.IntRange(0, 2).Draw(rt, "via_grb") == 0
 	st := gen.SeededState(rapid.Uint64Range(0, 1000).Draw(rt, "seed"), gen.StateCfg{D: gen.Small})
 	f := st.Go["F"]
 	f.I64 = int64(rapid.IntRange(0, 6).Draw(rt, "I64"))
